@@ -54,7 +54,11 @@ def run_checks(patch, pids, tier="quick", seed="1"):
     d = mutants.make_scratch()
     try:
         repo = os.path.join(d, "repo")
-        subprocess.check_call(["git", "-C", repo, "apply", os.path.abspath(patch)])
+        r = subprocess.run(["git", "-C", repo, "apply", os.path.abspath(patch)], stdout=subprocess.PIPE, stderr=subprocess.STDOUT)
+        if r.returncode != 0:
+            # /repo has moved on since the change was written (later fix: commits): merge it
+            subprocess.check_call(["git", "-C", repo, "apply", "--3way", os.path.abspath(patch)],
+                                  stdout=subprocess.DEVNULL, stderr=subprocess.DEVNULL)
         return mutants.run_checks(repo, os.path.join(d, "out"), pids, tier, seed)
     finally:
         mutants.drop_scratch(d)
